@@ -24,7 +24,7 @@ type pqWindow struct {
 }
 
 func init() {
-	probeNames["C06"] = []string{"image_nonempty_pending", "crash_in_flush", "crash_in_ack", "recovered_with_inprogress_flush", "recovered_with_inprogress_ack", "redelivered_unacked", "pq_reopen", "torn_header", "big_flush"}
+	probeNames["C06"] = []string{"image_nonempty_pending", "crash_in_flush", "crash_in_ack", "recovered_with_inprogress_flush", "recovered_with_inprogress_ack", "redelivered_unacked", "pq_reopen", "torn_header", "big_flush", "continued_after_recovery"}
 	register(&PropDef{
 		ID: "C06", Level: "fault_enumeration", QuickSec: 55, ThoroSec: 1200,
 		Rule: "each run = one seeded queue history (<=60 events, producer/consumer/ACK/clean reopen) on the simulated disk; evaluations = crash images: for EVERY op-log index after queue creation x subsets of the un-synced writes (all subsets up to 5 quick / 7 thorough pending ops, sampled above) x header tears; each image is opened by the real engine (file, standalone delegate, queue) and drained with the real reader. Oracle: the drained sequence is exactly model events [a,b), byte-identical and in order, with a in {ACKed total of completed ACKs} + {+n of an ACK in progress at the crash} and b in {events published by completed producer calls} + {events an in-progress producer call may publish}; Pending == b-a. Non-trivial = image with at least one pending op taken inside a producer or ACK call; distinct = (run, crash index, kept subset, tear).",
@@ -198,7 +198,15 @@ func c06Body(e *Env) {
 				e.Res.Sigs = append(e.Res.Sigs, h)
 			}
 		}
-		c06Eval(e, p.Cfg, img, sizes, allowedA, allowedB, desc)
+		var contSeed uint64
+		if !big && (evals%12 == 0 || k == len(log)) {
+			contSeed = uint64(evals)
+		}
+		if c.Crash != nil {
+			contSeed = c.Crash.ContSeed
+		}
+		ch.ContSeed = contSeed
+		c06Eval(e, p.Cfg, img, sizes, allowedA, allowedB, desc, contSeed)
 		if e.Failed() && c.Crash == nil {
 			c.Crash = ch
 		}
@@ -207,7 +215,7 @@ func c06Body(e *Env) {
 }
 
 // c06Eval opens a crash image, drains the queue and compares with the model.
-func c06Eval(e *Env, cfg Cfg, img []byte, sizes []int, allowedA, allowedB []int, desc string) {
+func c06Eval(e *Env, cfg Cfg, img []byte, sizes []int, allowedA, allowedB []int, desc string, cont ...uint64) {
 	d2 := simdisk.NewFromImage("image", e.S, img)
 	d2.YieldIO, d2.LogData = false, false
 	var f *txfile.File
@@ -329,7 +337,51 @@ func c06Eval(e *Env, cfg Cfg, img []byte, sizes []int, allowedA, allowedB []int,
 		if n > 0 {
 			e.Probe("redelivered_unacked")
 		}
+		if len(cont) > 0 && cont[0] != 0 {
+			c06Continue(e, cfg, img, sizes, a, b, cont[0], desc)
+		}
 		return
 	}
 	e.Fail("C06", "recovered-range", "%s: recovered queue delivers %d events, which is no allowed range [a,b) with a in %v and b in %v: %v", desc, n, allowedA, allowedB, why)
+}
+
+// c06Continue: the recovered queue (events [a,b) of the model) must keep
+// working: a short producer/consumer/ACK/reopen history runs on the image with
+// the full C05/C17 oracles, then everything is flushed and drained.
+func c06Continue(e *Env, cfg Cfg, img []byte, sizes []int, a, b int, seed uint64, desc string) {
+	if e.Failed() {
+		return
+	}
+	e.Probe("continued_after_recovery")
+	d3 := simdisk.NewFromImage("image", e.S, img)
+	d3.YieldIO, d3.LogData = false, false
+	p := NewPQ(e, d3, cfg)
+	p.Prop = "C06"
+	p.NoRecord = true
+	p.Sizes = append([]int(nil), sizes[:b]...)
+	p.acked = a
+	var err error
+	if e.Guard("C06", "opening the recovered queue again ("+desc+")", func() { err = p.Open() }) {
+		return
+	}
+	if err != nil {
+		e.Fail("C06", "open-failed", "%s: opening the recovered queue for further use failed: %+v", desc, err)
+		return
+	}
+	p.afterRestart(b)
+	p.CheckCounters = true
+	g := NewPQGen(p, e.Rng(fmt.Sprintf("c06cont-%d", seed)))
+	g.WAck, g.WFlush, g.WReopen, g.MaxPagesPerEvent = 14, 10, 3, 2
+	if e.Guard("C06", "using the recovered queue ("+desc+")", func() {
+		for i := 0; i < 24 && !e.Failed(); i++ {
+			p.Apply(g.Next())
+		}
+		pqFinish(e, p)
+	}) {
+		return
+	}
+	if e.Failed() && e.viol != nil {
+		e.viol.Msg = desc + "; recovered events [" + fmt.Sprint(a) + "," + fmt.Sprint(b) + "), then further use: " + e.viol.Msg
+	}
+	p.Close()
 }
